@@ -209,6 +209,22 @@ def run_split(case):
         kind = stop[0]
         if kind == "num":
             ended = sp.do_num(sp.env.now + stop[1])
+        elif kind in ("fnum", "fdue"):
+            if kind == "fnum":
+                t_int = sp.env.now + stop[1]
+            else:
+                dues = sorted({o.due for o in sp.h.occs if o.proc_step is None and o.due > sp.env.now})
+                if not dues:
+                    continue
+                t_int = dues[stop[1] % len(dues)]
+            try:
+                t_f = float(t_int)
+            except OverflowError:
+                continue
+            if t_f != t_int or not t_int > sp.env.now:
+                continue
+            sp.classes.add("stop given as a float on an integer clock")
+            ended = sp.do_num(t_f)
         elif kind == "abs":
             # "inf" is a legal stop: everything finite takes effect, the clock ends at infinity
             t_abs = float("inf") if stop[1] == "inf" else stop[1]
@@ -318,15 +334,20 @@ def bigclock_strategy(tier):
     prog = kgen.programs(WEIGHTS, max_bodies=4, max_instrs=6, max_start=5, max_nev=2, min_nev=1, pol=pol, ipol=pol, delay_set=ints,
                          min_instrs=2, min_start=2, inits=BIG)
     num = st.tuples(st.just("num"), st.sampled_from([1, 1, 2, 3, 5, 7, 9, 0, -1])).map(list)
+    # the same stop given as a float where a float can represent it: a stop does not change the type or value of anybody's clock
+    fnum = st.tuples(st.just("fnum"), st.sampled_from([1, 2, 3, 4, 6, 8])).map(list)
     due = st.tuples(st.just("due"), st.integers(0, 3)).map(list)
+    fdue = st.tuples(st.just("fdue"), st.integers(0, 3)).map(list)
     stp = st.tuples(st.just("step"), st.integers(1, 3)).map(list)
-    return st.fixed_dictionaries({"prog": prog, "plan": st.lists(kgen.weighted([(num, 4), (due, 2), (stp, 1)]), min_size=2, max_size=7)})
+    return st.fixed_dictionaries({"prog": prog, "plan": st.lists(kgen.weighted([(num, 3), (fnum, 2), (due, 2), (fdue, 2), (stp, 1)]),
+                                                                 min_size=2, max_size=7)})
 
 
 def run_bigclock(case):
     info = run_split(case)
     return {"nontrivial": info["nontrivial"], "classes": [c for c in info["classes"] if c in (
-        "stop at busy instant", ">=2 effective stops", "illegal stop refused")] + ["integer clock beyond 2**53"]}
+        "stop at busy instant", ">=2 effective stops", "illegal stop refused", "stop given as a float on an integer clock")]
+        + ["integer clock beyond 2**53"]}
 
 
 # ------------------------------------------------------------------ other interpreters / hash seeds
@@ -445,7 +466,7 @@ PROP = Property(
                              "illegal stop refused", "until-event already processed", "until-event never triggered",
                              "stepped on after run() raised"]),
             Facet("bigclock", bigclock_strategy, run_bigclock, quick=500, thorough=3000,
-                  essential=["stop at busy instant", ">=2 effective stops"]),
+                  essential=["stop at busy instant", ">=2 effective stops", "stop given as a float on an integer clock"]),
             Facet("twice", prog_strategy, run_twice, quick=300, thorough=2000),
             Facet("net_split", _net_split_strategy, _run_net_split, quick=600, thorough=3000,
                   essential=["network scenario split", "scenario with monitors"])],
